@@ -141,6 +141,45 @@ impl<'a> TokModel<'a> {
         }
     }
 
+    /// Known finding F6 (judged by C16): with `trim_text_end` on and `trim_text_start` off a
+    /// whitespace-only text that is followed by markup is returned as an *empty* Text event
+    /// instead of being dropped. Returns true -- and consumes the run, as the reader did --
+    /// when the next call under `cfg` is at exactly such a site.
+    pub fn accept_f6_empty_text(&mut self, cfg: u8) -> bool {
+        if self.done || self.pending_end.is_some() || cfg & C_TRIM_END == 0 || cfg & C_TRIM_START != 0 {
+            return false;
+        }
+        let input = self.input;
+        self.begin();
+        let mut p = self.pos;
+        let start = p;
+        while p < input.len() && is_ws(input[p]) {
+            p += 1;
+        }
+        if p == start || p >= input.len() || input[p] != b'<' {
+            return false;
+        }
+        self.pos = p;
+        self.rp = p as u64;
+        true
+    }
+
+    /// The first call consumes a byte-order mark.
+    fn begin(&mut self) {
+        let input = self.input;
+        if !self.started {
+            self.started = true;
+            if input.starts_with(&[0xEF, 0xBB, 0xBF]) {
+                self.pos = 3;
+            } else if input.starts_with(&[0xFE, 0xFF]) || input.starts_with(&[0xFF, 0xFE]) {
+                self.pos = 2;
+                self.maybe_not_utf8 = true;
+            } else if input.starts_with(&[0x00, b'<', 0x00, b'?']) || input.starts_with(&[b'<', 0x00, b'?', 0x00]) {
+                self.maybe_not_utf8 = true;
+            }
+        }
+    }
+
     /// One `read_event` call under configuration `cfg`.
     pub fn step(&mut self, cfg: u8) -> Step {
         let input = self.input;
@@ -153,17 +192,7 @@ impl<'a> TokModel<'a> {
             self.stack.pop();
             return self.ev(before, Kind::End, &name, &name);
         }
-        if !self.started {
-            self.started = true;
-            if input.starts_with(&[0xEF, 0xBB, 0xBF]) {
-                self.pos = 3;
-            } else if input.starts_with(&[0xFE, 0xFF]) || input.starts_with(&[0xFF, 0xFE]) {
-                self.pos = 2;
-                self.maybe_not_utf8 = true;
-            } else if input.starts_with(&[0x00, b'<', 0x00, b'?']) || input.starts_with(&[b'<', 0x00, b'?', 0x00]) {
-                self.maybe_not_utf8 = true;
-            }
-        }
+        self.begin();
         // ---- text ----
         if cfg & C_TRIM_START != 0 {
             while self.pos < len && is_ws(input[self.pos]) {
